@@ -36,6 +36,7 @@ import (
 
 	"github.com/tochemey/goakt/v4/errors"
 	"github.com/tochemey/goakt/v4/internal/cluster"
+	"github.com/tochemey/goakt/v4/internal/verifhook"
 	"github.com/tochemey/goakt/v4/internal/xsync"
 	"github.com/tochemey/goakt/v4/log"
 )
@@ -508,6 +509,7 @@ func (x *scheduler) makeJobFn(to *PID, message any, cfg *scheduleConfig, claim *
 	}
 
 	return func(ctx context.Context) (bool, error) {
+		verifhook.At("sched.job", message, 0, 0)
 		if claim != nil {
 			won, err := x.claimClusterFire(ctx, claim)
 			if err != nil {
@@ -523,6 +525,7 @@ func (x *scheduler) makeJobFn(to *PID, message any, cfg *scheduleConfig, claim *
 			}
 		}
 
+		verifhook.At("sched.tell", message, 0, 0)
 		err := sender.Tell(ctx, to, message)
 		return err == nil, err
 	}
